@@ -5,7 +5,6 @@ from ..driver import Result
 from . import satcommon, sigs
 
 ID = "C22"
-VARIANTS = ["fast"]
 BUDGET = {"quick": (1000, 110), "thorough": (30000, 1500)}
 INTFREE = [k for k in gen.ALL_LOGIC_KEYS if not gen.LOGICS[k]["ints"]]
 RULE = ("Arm A (monitor inside real search): C01's Hypothesis scripts x engines x :random-seed, :random-var-freq, :rnd-pol, "
@@ -16,7 +15,58 @@ RULE = ("Arm A (monitor inside real search): C01's Hypothesis scripts x engines 
         "returns SAT with no pending split clause in a logic without integers the current set must be certified sat (Boolean terms that are arguments of uninterpreted functions are opaque constants there, tied to their own asserted literal only). Up to "
         "40 verdicts per run. Non-trivial = verdict issued after >= 1 backtrack on a literal set different from every earlier "
         "examined set of the run; distinct by literal set.")
-ASSUMPTIONS = ["z3 (+cvc5 where it can parse opensmt's numerals)", "hooked build", "integer logics: only UNSAT verdicts examined"]
+RULE += (" Arm B (harness/h_theory.cc, rapidcheck, ASan/UBSan library): LASolver (LRA), Egraph (EUF), IDLSolver and RDLSolver "
+         "driven directly with the protocol of THandler/CoreSMTSolver: an atom pool over shared linear terms / a shared term "
+         "pool (equalities, predicates, n-ary distinct), one backtrack point per literal, literals grouped in decision "
+         "levels, backtracking to level boundaries only and by at least one level after every conflict, deductions drained "
+         "after each successful check, verified and asserted back; atoms are declared up front (for LASolver also in the middle "
+         "of a history, as LIA splits do). Oracle (libz3 on the currently asserted literals): a conflict from assertLit/check "
+         "only on an unsatisfiable set, with an explanation made of currently asserted literals that is itself unsatisfiable; "
+         "a complete check that answers SAT only on a satisfiable set; every deduction implied by the set. Non-trivial (arm B) "
+         "= history with a verdict issued after >= 1 backtrack.")
+VARIANTS = ["fast", "san"]
+ASSUMPTIONS = ["z3 (+cvc5 where it can parse opensmt's numerals)", "hooked build", "integer logics: only UNSAT verdicts examined",
+               "arm B: the call protocol of THandler is the input domain (sequences no caller produces, e.g. declaring a "
+               "difference-logic atom while literals are asserted, are outside it)"]
+
+
+# ---- arm B: the theory solvers driven directly (harness/h_theory.cc), run once per campaign before the script workers ----
+_H = {}
+PREPARE_ON_REPLAY = False
+
+
+def prepare(tier, seed=1):
+    import glob, os
+    from . import hcommon
+    from .. import build, harness
+    out = hcommon.run_rc_property(ID, "h_theory", ["lra", "euf", "idl", "rdl", "lra", "euf", "lra", "idl", "rdl", "lra", "euf", "lra", "idl", "rdl", "euf", "lra"], tier, seed, 1500, 40000, nproc=16, noshrink=True)
+    # saved histories (regressions of repaired defects) are replayed on every run
+    for f in sorted(glob.glob(os.path.join(build.ROOT, "replays", ID, "*.txt"))):
+        r = harness.run_one("h_theory", ["replay", f])
+        out["coverage"]["evaluations"] = out["coverage"].get("evaluations", 0) + 1
+        if r["rc"] != 0 or r["ub"] or r["asan"]:
+            out["violations"].append(os.path.relpath(f, build.ROOT))
+    _H.update(out)
+
+
+def extra_coverage():
+    cov = _H.get("coverage", {})
+    return {"add_evaluations": cov.get("evaluations", 0), "add_nontrivial": cov.get("distinct_nontrivial", 0),
+            "add_samples": cov.get("samples", [])[:2], "arm_b_direct_harness_classes": cov.get("classes", {})}
+
+
+def extra_violations():
+    return _H.get("violations", [])
+
+
+def custom_replay(path):
+    if path.endswith(".txt"):
+        from . import hcommon
+        return hcommon.replay("h_theory", path)
+    from ..driver import Ctx
+    data = json.load(open(path))
+    res = check(data["case"] if "case" in data else data, Ctx("quick", 1))
+    return res.status != "violation", "status=%s detail=%s" % (res.status, json.dumps(res.detail, default=str)[:2000])
 
 
 def generate(rnd, tier):
